@@ -1,17 +1,17 @@
 SPECIFICATION Spec
 CONSTANTS
-  Kind = "provider"
+  Kind = "function"
   Starts <- StartsAll
   Certs <- BoolBoth
-  Tmpls <- TmplPlain
-  Drc0 <- DrcNamed
-  EnvKinds <- EnvSeq
+  Tmpls <- TmplBoth
+  Drc0 <- DrcAll
+  EnvKinds <- EnvAll
   Interf <- InterfDeps
   MaxEdits = 2
   MaxFaults = 1
   MaxRecs = 2
-  MaxNest = 0
-  MidEnv = FALSE
+  MaxNest = 1
+  MidEnv = TRUE
   GuardInactive = TRUE
   GuardHealth = TRUE
   OwnDelete = FALSE
